@@ -45,6 +45,9 @@ use super::{
 pub enum Body {
   /// SimpleDataReaderStream::poll_next vs two DATA datagrams
   SimpleStream,
+  /// as SimpleStream, but the stream is first polled once from another context (another waker: a start-up
+  /// `now_or_never`, a `select!` that lost, a task hand-over) before the consumer parks on it with its own
+  SimpleStreamOtherWakerFirst,
   /// DataReaderStream (with SampleInfo) vs two DATA datagrams
   SampleStream,
   /// BareDataReaderStream vs two DATA datagrams
@@ -187,9 +190,22 @@ fn reader_body(body: Body, prefix: &[usize]) -> RunResult {
       fw.0.store(false, Ordering::SeqCst);
     };
     match body {
-      Body::SimpleStream => {
+      Body::SimpleStream | Body::SimpleStreamOtherWakerFirst => {
         {
           let mut stream = sdr.as_async_stream();
+          if body == Body::SimpleStreamOtherWakerFirst {
+            let other = Arc::new(FlagWaker(AtomicBool::new(false)));
+            let owk = Waker::from(other.clone());
+            let mut ocx = Context::from_waker(&owk);
+            match Pin::new(&mut stream).poll_next(&mut ocx) {
+              Poll::Ready(Some(Ok(_))) => {
+                g.fetch_add(1, Ordering::SeqCst);
+              }
+              Poll::Ready(_) => panic!("MACHINERY unexpected stream result"),
+              Poll::Pending => {}
+            }
+            sched::point("APP.polled_from_other_context");
+          }
           while g.load(Ordering::SeqCst) < expected {
             match Pin::new(&mut stream).poll_next(&mut cx) {
               Poll::Ready(Some(Ok(_))) => {
